@@ -186,6 +186,11 @@ def _directions(rng, dim, cls):
         if nd > 1 and rng.random() < 0.4:
             # nearly anti-parallel pair: the same line, overlapping cones
             dirs[1] = -dirs[0] + 0.1 * rng.normal(size=dim)
+        elif nd > 1 and rng.random() < 0.5:
+            # nearly parallel pair (overlapping cones)
+            dirs[1] = dirs[0] + 0.15 * rng.normal(size=dim)
+        # direction vectors are given in any length (they are documented to be normalised by the estimator)
+        dirs = dirs * np.exp(rng.uniform(np.log(0.05), np.log(20.0), size=(len(dirs), 1)))
     return dirs
 
 
